@@ -737,6 +737,11 @@ def method(ex, p, s, name, args, kwargs, node):
         if r is not None:
             yield from r
             return
+    lim = {'strip': 1, 'lstrip': 1, 'rstrip': 1, 'lower': 0, 'upper': 0, 'startswith': 1, 'endswith': 1, 'isspace': 0, 'replace': 2,
+           'join': 1, 'find': 2, 'isdigit': 0, 'copy': 0, 'split': 2, 'encode': 2, 'decode': 2}.get(name)
+    if lim is not None and (len(args) > lim or (kwargs and name not in ('split', 'encode', 'decode'))):
+        # an argument the model does not read (startswith(p, start), replace(a, b, count), find(s, a, b) ...) must not be dropped silently
+        raise EngineError(f'str.{name} called with arguments its model does not cover ({len(args)} positional, keywords {sorted(kwargs)})')
     if name == 'strip':
         if args and not args[0].is_lit():
             raise EngineError('strip(chars)')
